@@ -558,7 +558,12 @@ class StereoCondensedReactionGraph(StereoMolGraph, CondensedReactionGraph):
             ts_stereo = ts_graph.get_atom_stereo(atom) if ts_graph else None
 
             if (ts_stereo is not None and ts_stereo == r_stereo == p_stereo):
-                scrg.set_atom_stereo(ts_stereo)
+                # a transition state descriptor with unspecified parity
+                # compares equal to every descriptor over the same atoms: keep
+                # the (fully specified) descriptor of reactant and product
+                scrg.set_atom_stereo(
+                    r_stereo if ts_stereo.parity is None else ts_stereo
+                )
             elif (ts_stereo is not None
                   and ts_stereo != p_stereo
                   and ts_stereo != r_stereo):
